@@ -159,6 +159,13 @@ def cases(tier, seed):
                "rs": rng.randint(0, 10 ** 9)}
     for bad in ["edges-not-increasing", "arg-not-a-variable", "no-fill-compute"]:
         yield {"bad": bad}
+    # the argument variable is an ordinary Variable that is used again afterwards; values may
+    # come from upstream Variable elements (their context holds a typed context.variable); a
+    # user function inside the analysis may raise for one value
+    for typed in (0, 1):
+        for upstream in (0, 1):
+            for raising in (None, "IndexError", "KeyError", "ValueError"):
+                yield {"special": 1, "typed": typed, "upstream": upstream, "raising": raising}
 
 
 # ------------------------------------------------------------------ builders
@@ -210,6 +217,8 @@ def run_case(r, obs):
     import lena.variables
     if "bad" in r:
         return _bad(r, obs, lena)
+    if "special" in r:
+        return _special(r, obs, lena)
     dim, edges = r["dim"], r["edges"]
     E = mon.unify_edges(edges)
     getter = (ARG1 if dim == 1 else ARG2)[r["arg"]]
@@ -519,6 +528,83 @@ def _map_bins(obs, lena, r, res, idxs, cells):
                              "sequence applied to that cell %r gives %r"
                              % (r["mapseq"], r["drop"], what, k, idx, got, cells_snap[j], exp))
                     return
+
+
+class _RaiseOn(object):
+    """User function inside the analysis that raises for one particular datum."""
+
+    def __init__(self, datum, exc):
+        self.datum, self.exc = datum, exc
+
+    def __call__(self, v):
+        if gen.data_of(v) == self.datum:
+            raise self.exc("user function fails on %r" % (self.datum,))
+        return v
+
+
+def _ident(d):
+    return d
+
+
+def _special(r, obs, lena):
+    import lena.math
+    import lena.variables
+    obs.nontrivial = True
+    kw = {"type": "coordinate"} if r["typed"] else {}
+
+    def mkvar():
+        return lena.variables.Variable("x", _ident, unit="cm", **kw)
+    var = mkvar()
+    snap = copy.deepcopy(var.var_context)
+    old = {"name": "old", "type": "t0", "t0": {"name": "old", "unit": "mm"}}
+    data = [0.5, 1.5, 1.2, 0.1, 7.0, 1.7]
+    flow = []
+    for i, d in enumerate(data):
+        c = {"i": i}
+        if r["upstream"]:
+            c["variable"] = copy.deepcopy(old)
+        flow.append((d, c))
+    els = [lena.math.Sum()]
+    exc = {"IndexError": IndexError, "KeyError": KeyError, "ValueError": ValueError,
+           None: None}[r["raising"]]
+    if exc is not None:
+        els = [_RaiseOn(1.2, exc), lena.math.Sum()]       # 1.2 lies inside the edges
+    sib = lena.structures.SplitIntoBins(lena.core.FillComputeSeq(*els), var, [0, 1, 2])
+    propagated = []
+    for v in flow:
+        try:
+            sib.fill(copy.deepcopy(v))
+        except Exception as e:  # pylint: disable=broad-except
+            propagated.append((v[0], type(e).__name__))
+    obs.count("special_split_into_bins_runs")
+    if exc is not None:
+        # what a private copy of the analysis does with that value: it raises; so must the cell
+        obs.check(propagated == [(1.2, r["raising"])],
+                  "exception-of-the-analysis-swallowed:" + r["raising"],
+                  "the analysis raises %s for the in-range value 1.2; SplitIntoBins.fill "
+                  "propagated %r" % (r["raising"], propagated))
+    else:
+        obs.check(not propagated, "split-into-bins-fill-raises", "%r" % (propagated,))
+    res = list(sib.compute())
+    exp_cells = [0.5 + 0.1, 1.5 + 1.7 + (0 if exc is not None else 1.2)]
+    ok = len(res) == 1 and gen.has_ctx(res[0]) and \
+        [gen.data_of(b) for b in res[0][0].bins] == exp_cells
+    obs.check(ok, "cell-content-differs", "cells %r, expected %r"
+              % ([gen.data_of(b) for b in res[0][0].bins] if res else res, exp_cells))
+    # the argument variable is unchanged, and works as before in another element
+    obs.check(var.var_context == snap, "split-into-bins-changes-its-argument-variable",
+              "var_context of the argument variable was %r, is %r after fill/compute on values "
+              "whose context %s" % (snap, var.var_context,
+                                    "holds a typed context.variable" if r["upstream"]
+                                    else "has no variable"))
+    again = lena.structures.SplitIntoBins(lena.math.Sum(), var, [0, 1, 2])
+    fresh = lena.structures.SplitIntoBins(lena.math.Sum(), mkvar(), [0, 1, 2])
+    for s in (again, fresh):
+        s.fill((0.5, {"k": 1}))
+    a, f = list(again.compute()), list(fresh.compute())
+    obs.check(a[0][1] == f[0][1], "split-into-bins-changes-its-argument-variable",
+              "a second SplitIntoBins built with the same Variable yields context %r, with a "
+              "fresh equal Variable %r" % (a[0][1], f[0][1]))
 
 
 def _bad(r, obs, lena):
